@@ -160,7 +160,10 @@ theorem stitchDown_ro (b : Nat) (last : Option Str) : Prog.AllOps RO (stitchDown
       split
       · exact .ret _
       · exact Prog.AllOps.bind (ih _) (fun _ => .ret _)
-    · exact ih _
+    · refine Prog.AllOps.bind (unwrapOr_ro _ (isFile_ro _)) (fun r => ?_)
+      split
+      · exact .emit _ (ih _)
+      · exact ih _
 
 theorem stitchAll_ro (b : Nat) : Prog.AllOps RO (stitchAll b) := by
   unfold stitchAll
